@@ -535,7 +535,8 @@ func main() {
 		return lib.RSOp{Kind: "update", Key: []byte(k), Val: []byte(v), Prev: prev}
 	}
 	d := func(k string, prev uint64) lib.RSOp { return lib.RSOp{Kind: "delete", Key: []byte(k), Prev: prev} }
-	// corpus 1: three versions of /r/a; borders between two versions (fix 51e6ded), on the index record, between keys
+	// corpus 1: three versions of /r/a; borders between two versions (fix 51e6ded), on the index record, between keys;
+	// tilings 2-4 list the pieces out of key order (fix for C13-F1: GetPartitions sorts the engine's list)
 	// extra ranges start exactly at the key whose versions are split (the adjusted border = start of the interval)
 	x1 := []rng{{[]byte("/r/a"), []byte("/r0"), 0}, {[]byte("/r/a"), []byte("/r/a/"), 104}, {[]byte("/r/a"), []byte("/r/b"), 103},
 		// revisions at which only the versions *before* a mid-version border qualify
